@@ -13,6 +13,10 @@ Inductive reach (g : graph) (start : list addr) : addr -> Prop :=
 Definition closed (g : graph) : Prop :=
   forall x y, present g x = true -> In y (refs g x) -> present g y = true.
 
+(* a generation (set of addresses) closed under references *)
+Definition gclosed (g : graph) (s : list addr) : Prop :=
+  forall x y, memb x s = true -> In y (refs g x) -> memb y s = true.
+
 Definition lookup (g : graph) (h : addr) : option (list addr) :=
   match find (fun p => fst p =? h) g with Some p => Some (snd p) | None => None end.
 
